@@ -1399,3 +1399,56 @@ theorem spells_eval (cfg : Cfg) {us : List Use} {ws : List Word} (h : HState) (p
   rw [spells_iterate cfg h prog hs]
 
 end CelmaVerif.ProgArgs
+
+namespace CelmaVerif.ProgArgs
+open CelmaVerif CelmaVerif.Keys
+
+/-- **Exact keys resolve.**  In a table without clashing keys, the short key of an argument (as a
+    character) and its long key (as a word) designate that argument — with abbreviations on or off and
+    whatever other keys are defined (C05: an exact key always wins).  This discharges the `Resolves`
+    hypotheses of `Spells` for every exact spelling. -/
+theorem resolves_exact (cfg : Cfg) (hd : Keys.Disjoint cfg.table) (i : Nat) (d : ArgDef) (hi : cfg.args[i]? = some d)
+    (k : Key) (hk : k.Single) (hc : d.key.Clash k) : Resolves cfg k i d := by
+  unfold Resolves
+  have hmem : (d.key, d) ∈ cfg.table := by
+    unfold Cfg.table
+    exact List.mem_map.mpr ⟨d, List.mem_of_getElem? hi, rfl⟩
+  have hp := findArg_exact cfg.abbr cfg.table hd (d.key, d) hmem k hk hc
+  cases hf : findArg cfg.abbr cfg.table k with
+  | throw e => rw [hf] at hp; simp [payload] at hp
+  | oob w => rw [hf] at hp; simp [payload] at hp
+  | ok r =>
+    cases r with
+    | none => rw [hf] at hp; simp [payload] at hp
+    | some ja =>
+      obtain ⟨j, a⟩ := ja
+      rw [hf] at hp
+      simp only [payload] at hp
+      have ha : a = d := by simpa using hp
+      subst ha
+      have hj := findArg_cfg hf
+      -- two positions holding the same definition in a disjoint table coincide
+      have hij : i = j := by
+        unfold Keys.Disjoint at hd
+        rw [List.pairwise_iff_getElem] at hd
+        obtain ⟨hil, hie⟩ := List.getElem?_eq_some_iff.mp hi
+        obtain ⟨hjl, hje⟩ := List.getElem?_eq_some_iff.mp hj
+        have hlen : cfg.table.length = cfg.args.length := by unfold Cfg.table; simp
+        have hself : a.key.Clash a.key := by
+          -- the key clashes with the lookup key, hence it is not the "nothing" key unless positional
+          rcases hc with h1 | h1 | h1
+          · exact Or.inl ⟨h1.1, rfl⟩
+          · exact Or.inr (Or.inl ⟨h1.1, rfl⟩)
+          · exact Or.inr (Or.inr ⟨h1.1, h1.1⟩)
+        rcases Nat.lt_trichotomy i j with hlt | heq | hgt
+        · exfalso
+          apply hd i j (by omega) (by omega) hlt
+          simp only [Cfg.table, List.getElem_map, hie, hje]; exact hself
+        · exact heq
+        · exfalso
+          apply hd j i (by omega) (by omega) hgt
+          simp only [Cfg.table, List.getElem_map, hie, hje]; exact hself
+      subst hij
+      rfl
+
+end CelmaVerif.ProgArgs
